@@ -116,7 +116,7 @@ func (rs *runState) checkWAF(source, pattern string, inputs []string, capture bo
 			ro := on.eval(in)
 			n++
 			if ro != rf {
-				sig := classify(rs.multiline, pattern, in, ro, rf)
+				sig := classify(rs.multiline, pattern, in, ro, rf, func(s string) (result, result) { return on.eval(s), off.eval(s) })
 				c.Violation(sig, describe(c.Variant, pattern, in, ro, rf, "waf"),
 					scenario{Level: "waf", Variant: c.Variant, Pattern: pattern, Input: []byte(in), InputQ: fmt.Sprintf("%q", in), Capture: capture, Source: source})
 			}
